@@ -236,8 +236,6 @@ func (rhs *randHashShuffler) IsInterfaceNil() bool {
 }
 
 func shuffleNodes(arg shuffleNodesArg) (*ResUpdateNodes, error) {
-	allLeaving := append(arg.unstakeLeaving, arg.additionalLeaving...)
-
 	waitingCopy := copyValidatorMap(arg.waiting)
 	eligibleCopy := copyValidatorMap(arg.eligible)
 
@@ -256,6 +254,11 @@ func shuffleNodes(arg shuffleNodesArg) (*ResUpdateNodes, error) {
 
 	remainingUnstakeLeaving, _ := removeLeavingNodesNotExistingInEligibleOrWaiting(arg.unstakeLeaving, waitingCopy, eligibleCopy)
 	remainingAdditionalLeaving, _ := removeLeavingNodesNotExistingInEligibleOrWaiting(arg.additionalLeaving, waitingCopy, eligibleCopy)
+
+	// only the validators that were eligible or waiting can be reported as leaving
+	allLeaving := make([]Validator, 0, len(remainingUnstakeLeaving)+len(remainingAdditionalLeaving))
+	allLeaving = append(allLeaving, remainingUnstakeLeaving...)
+	allLeaving = append(allLeaving, remainingAdditionalLeaving...)
 
 	newEligible, newWaiting, stillRemainingUnstakeLeaving := removeLeavingNodesFromValidatorMaps(
 		eligibleCopy,
